@@ -49,9 +49,30 @@ type c20Scenario struct {
 	// Near: the magnitude of the client's TTL is 500 ms instead of 1 h (a lease about to expire / just expired).
 	// Only used while the clock is frozen (vclock), so that such a lease keeps its sign for the whole execution.
 	Near []bool `json:"ttl_near,omitempty"`
+	// Flip (only with Live=false): the client's ACQUIRE uses the negative TTL (its lease has expired since it was
+	// acquired) and its RENEW a positive one of the same magnitude (a renew issued now asks for a fresh TTL).
+	Flip []bool `json:"ttl_renew_live,omitempty"`
 }
 
 func (s *c20Scenario) near(i int) bool { return i < len(s.Near) && s.Near[i] }
+func (s *c20Scenario) flip(i int) bool { return i < len(s.Flip) && s.Flip[i] && !s.Live[i] }
+
+// liveFor: is the record written by a successful op of this kind by client i unexpired?
+func (s *c20Scenario) liveFor(i int, kind string) bool {
+	return s.Live[i] || (kind == "ren" && s.flip(i))
+}
+
+// ttlFor is the TTL the client's leaser is given for an operation of this kind.
+func (s *c20Scenario) ttlFor(i int, kind string) time.Duration {
+	d := time.Hour
+	if s.near(i) {
+		d = 500 * time.Millisecond
+	}
+	if !s.liveFor(i, kind) {
+		d = -d
+	}
+	return d
+}
 
 func c20Name(i int) string { return string(rune('A' + i)) }
 
@@ -66,6 +87,9 @@ func (s *c20Scenario) String() string {
 		}
 		if s.near(i) {
 			t += "500ms"
+		}
+		if s.flip(i) {
+			t += ">renew+"
 		}
 		tt = append(tt, t)
 	}
@@ -143,6 +167,33 @@ func c20ScenariosTTL(nClients, maxLen, minLongest int, near bool) []*c20Scenario
 	return out
 }
 
+// c20ScenariosFlip: the scenarios in which some client whose lease is born expired also renews, with that client's
+// renew asking for a live TTL ("the lease has expired since it was acquired").
+func c20ScenariosFlip(nClients, maxLen int, near bool) []*c20Scenario {
+	var out []*c20Scenario
+	for _, b := range c20ScenariosTTL(nClients, maxLen, 1, near) {
+		use := false
+		for i := range b.Ops {
+			if !b.Live[i] {
+				for _, op := range b.Ops[i] {
+					if op == "ren" {
+						use = true
+					}
+				}
+			}
+		}
+		if !use {
+			continue
+		}
+		sc := &c20Scenario{Ops: b.Ops, Live: b.Live, Near: b.Near}
+		for i := range b.Ops {
+			sc.Flip = append(sc.Flip, !b.Live[i])
+		}
+		out = append(out, sc)
+	}
+	return out
+}
+
 // ---------------------------------------------------------------- one execution
 
 type c20Resp struct {
@@ -182,8 +233,15 @@ type c20Client struct {
 
 	lease     *litestream.Lease // last lease obtained (possibly stale)
 	leaseFrom int
-	holds     bool // I1 definition
+	has       bool // last successful acquire/renew not followed by a successful release
 	takenOver bool // another client's acquire succeeded after our last successful acquire/renew
+}
+
+// holdsNow: the client believes it holds the lease: it obtained one (and has not released it) and the lease object it
+// keeps says it has not expired yet. Expiry is read from that object, not from the scenario's TTL class: a library
+// that rewrites the caller's lease object changes what the caller believes.
+func (c *c20Client) holdsNow() bool {
+	return c.has && c.lease != nil && vclock.Now().Before(c.lease.ExpiresAt)
 }
 
 type c20Viol struct {
@@ -315,6 +373,7 @@ func (e *c20Exec) runOp(ctx context.Context, c *c20Client, rec *c20OpRec) {
 	}
 	var newLease *litestream.Lease
 	var err error
+	c.leaser.TTL = e.sc.ttlFor(c.id, rec.Kind)
 	switch rec.Kind {
 	case "acq":
 		newLease, err = c.leaser.AcquireLease(ctx)
@@ -460,21 +519,23 @@ func (e *c20Exec) opDone(c *c20Client, rec *c20OpRec, nl *litestream.Lease) {
 				x.takenOver = true
 			}
 		}
-		c.lease, c.leaseFrom, c.takenOver, c.holds = nl, rec.ID, false, c.live
+		c.lease, c.leaseFrom, c.takenOver, c.has = nl, rec.ID, false, true
 	case rec.Kind == "ren" && ok:
-		c.lease, c.leaseFrom, c.holds = nl, rec.ID, c.live
+		c.lease, c.leaseFrom, c.has = nl, rec.ID, true
 	case rec.Kind == "rel" && ok:
-		c.holds = false
+		c.has = false
 		e.relSince = true
 	}
 	// (I1a) mutual exclusion.
 	var holders []string
 	for _, x := range e.cl {
-		if x.holds {
+		if x.holdsNow() {
 			holders = append(holders, c20Name(x.id))
 		}
 	}
-	if len(holders) > 1 && ok && rec.Kind != "rel" {
+	// judged after EVERY operation, successful or not: a client holds a lease as long as the lease object IT keeps
+	// (the one its last successful acquire/renew returned, whatever the library did to it since) is unexpired
+	if len(holders) > 1 && rec.Kind != "rel" {
 		e.violate("two-holders", "both-hold", "clients %s all hold an unexpired, unreleased lease", strings.Join(holders, ","))
 	}
 }
@@ -511,7 +572,7 @@ func (e *c20Exec) key() string {
 		if c.lease != nil {
 			fmt.Fprintf(&b, "L%d,%d,%d", can(c.lease.ETag), c.lease.Generation, c.leaseFrom)
 		}
-		fmt.Fprintf(&b, "h%t,t%t;", c.holds, c.takenOver)
+		fmt.Fprintf(&b, "h%t,t%t;", c.holdsNow(), c.takenOver)
 		for _, r := range c.recs {
 			if r.Done {
 				b.WriteString(r.Result)
@@ -582,7 +643,7 @@ type c20Reg struct {
 	live    bool // record unexpired
 }
 
-func (m c20Reg) apply(op *c20OpRec, live []bool) (c20Reg, bool) {
+func (m c20Reg) apply(op *c20OpRec, sc *c20Scenario) (c20Reg, bool) {
 	mine := m.present && m.ver == op.Arg
 	switch op.Kind {
 	case "acq":
@@ -591,7 +652,7 @@ func (m c20Reg) apply(op *c20OpRec, live []bool) (c20Reg, bool) {
 			if m.present && m.live {
 				return m, false
 			}
-			return c20Reg{true, op.ID, live[op.Client]}, true
+			return c20Reg{true, op.ID, sc.liveFor(op.Client, "acq")}, true
 		case "exists":
 			return m, m.present
 		}
@@ -601,7 +662,7 @@ func (m c20Reg) apply(op *c20OpRec, live []bool) (c20Reg, bool) {
 			if !mine {
 				return m, false
 			}
-			return c20Reg{true, op.ID, live[op.Client]}, true
+			return c20Reg{true, op.ID, sc.liveFor(op.Client, "ren")}, true
 		case "notheld":
 			return m, !mine
 		}
@@ -620,7 +681,7 @@ func (m c20Reg) apply(op *c20OpRec, live []bool) (c20Reg, bool) {
 }
 
 // c20Linearizable: brute force over all total orders consistent with real time.
-func c20Linearizable(ops []*c20OpRec, live []bool) (bool, []int) {
+func c20Linearizable(ops []*c20OpRec, sc *c20Scenario) (bool, []int) {
 	n := len(ops)
 	pred := make([]uint32, n)
 	for i, a := range ops {
@@ -640,7 +701,7 @@ func c20Linearizable(ops []*c20OpRec, live []bool) (bool, []int) {
 			if done&(1<<i) != 0 || pred[i]&^done != 0 {
 				continue
 			}
-			if m2, ok := m.apply(ops[i], live); ok {
+			if m2, ok := m.apply(ops[i], sc); ok {
 				order = append(order, i)
 				if rec(done|1<<i, m2) {
 					return true
@@ -673,7 +734,7 @@ func (e *c20Exec) checkComplete(linMemo map[string]bool) {
 	hk := hb.String()
 	ok, seen := linMemo[hk]
 	if !seen {
-		ok, _ = c20Linearizable(ops, e.sc.Live)
+		ok, _ = c20Linearizable(ops, e.sc)
 		linMemo[hk] = ok
 	}
 	if !ok {
@@ -972,7 +1033,10 @@ func c20(args []string) int {
 			c20Group{"2 clients x lists<=3, TTL +-500ms", c20ScenariosTTL(2, 3, 1, true)},
 			c20Group{"3 clients x lists<=2, TTL +-500ms", c20ScenariosTTL(3, 2, 1, true)})
 	}
+	// a lease that has expired since it was acquired, renewed now with a live TTL (per-operation TTL)
+	groups = append(groups, c20Group{"2 clients x lists<=3, expired lease renewed with a live TTL", c20ScenariosFlip(2, 3, false)})
 	if ev.Tier() == "thorough" {
+		groups = append(groups, c20Group{"3 clients x lists<=2, expired lease renewed with a live TTL", c20ScenariosFlip(3, 2, false)})
 		groups = append(groups, c20Group{"2 clients x lists<=4 (some list =4)", c20Scenarios(2, 4, 4)})
 		// (3 clients x lists<=3 was measured: 17064 scenarios, up to 1.1M states each, 19% done in 15 min - not included)
 	}
@@ -1175,7 +1239,7 @@ func c20(args []string) int {
 			"traces_validated_against_impl": totExecs,
 			"evaluations":                   totExecs,
 			"distinct_nontrivial":           nontrivial,
-			"rule": "every scenario = per client an operation list over {acq,ren,rel} starting with acq (ren/rel use the last lease the client obtained, also a stale one; dropped if it never obtained one) and a TTL of +1h (live) or -1h (born expired), and, on a frozen clock (build-time clock seam for leaser.go and s3/leaser.go), +500ms (live, about to expire) or -500ms (just expired); " +
+			"rule": "every scenario = per client an operation list over {acq,ren,rel} starting with acq (ren/rel use the last lease the client obtained, also a stale one; dropped if it never obtained one) and a TTL of +1h (live) or -1h (born expired; in one more group such a client's renew asks for +1h: the lease has expired since it was acquired), and, on a frozen clock (build-time clock seam for leaser.go and s3/leaser.go), +500ms (live, about to expire) or -500ms (just expired); " +
 				"for each scenario ALL interleavings of the clients' individual storage requests are explored (DFS, replay from the initial state, visited set on canonical state incl. monitor state and real-time precedence); " +
 				"evaluations = complete executions of the real s3.Leaser; distinct_nontrivial = number of distinct (scenario, outcome class) pairs in which some client observed another (a result exists/notheld/already, or an acquire at generation >= 2); outcome class = per-operation results + final store record",
 			"exhaustive":               exhaustive,
